@@ -549,7 +549,7 @@ func genSpecial(r *mon.Rand, s *Sub, i int) {
 		w.Out = append(w.Out, v)
 		w.Class = append(w.Class, class)
 	}
-	if (i/20)%2 == 0 {
+	if (i/20)%3 == 0 {
 		s.Shape, s.Spelling, s.PathClass = "mixed-from-import", "from-mixed", "valid-nested"
 		s.Files = map[string]string{
 			"pkg.risor":     "tick(\"pkg\")\ncnt := 0\nval := 77\nfunc helper() { cnt++; return 1000 + cnt }\nfunc other() { return 2000 }\n",
@@ -635,6 +635,43 @@ func genSpecial(r *mon.Rand, s *Sub, i int) {
 		}
 		for t := range ticks {
 			w.Ticks = append(w.Ticks, t)
+		}
+	} else if (i/20)%3 == 1 {
+		// the importing code re-binds names of host globals (a builtin function, a builtin module) before the
+		// module is loaded for the first time: the re-binding is the importer's own variable, the module keeps
+		// seeing the host's
+		s.Shape, s.Spelling, s.PathClass = "host-name-rebound", "import", "valid-flat"
+		s.Files = map[string]string{
+			"measure.risor": "tick(\"measure\")\nfunc size(x) { return len(x) }\nfunc up() { return len(strings.to_upper(\"ab\")) }\nfunc kind() { return len(type(1)) }\n",
+			"quiet.risor":   "tick(\"quiet\")\nlen = func(x) { return 700 }\ntype = func(x) { return \"abcdefghij\" }\nimport measure\nfunc size(x) { return measure.size(x) }\nfunc kind() { return measure.kind() }\nfunc own(x) { return len(x) }\n",
+			"mystr.risor":   "tick(\"mystr\")\nfunc to_upper(s) { return \"abcdefg\" }\n",
+		}
+		switch r.Intn(4) {
+		case 0:
+			lines = append(lines, "len = func(x) { return 99 }", "import measure")
+			obs("measure.size([1, 2, 3])", 3, "globals")
+			obs("len([1])", 99, "globals")
+			obs("measure.up()", 2, "globals")
+			w.Ticks = []string{"measure"}
+		case 1:
+			lines = append(lines, "import quiet")
+			obs("quiet.size([1, 2])", 2, "globals")
+			obs("quiet.own([1, 2])", 700, "globals")
+			obs("quiet.kind()", 3, "globals")
+			obs("len([1, 2, 3, 4])", 4, "globals")
+			w.Ticks = []string{"quiet", "measure"}
+		case 2:
+			lines = append(lines, "import mystr as strings", "import measure")
+			obs("measure.up()", 2, "globals")
+			obs("len(strings.to_upper(\"ab\"))", 7, "globals")
+			w.Ticks = []string{"mystr", "measure"}
+		default:
+			lines = append(lines, "type = func(x) { return \"abcdefgh\" }", "len = func(x) { return 41 }", "import quiet", "import measure")
+			obs("measure.kind()", 3, "globals")
+			obs("quiet.own(\"\")", 700, "globals")
+			obs("measure.size(\"abcde\")", 5, "globals")
+			obs("len(\"\")", 41, "globals")
+			w.Ticks = []string{"quiet", "measure"}
 		}
 	} else {
 		s.Shape, s.Spelling, s.PathClass = "case-pair", "import-str-as", "valid-nested"
